@@ -69,6 +69,9 @@ func TestRecordShared(t *testing.T) {
 		kind := []string{"join", "unite", "v1"}[run%3]
 		nd := 2 + rnd.Intn(15)
 		tUnits := []int{10, 20, 40}[rnd.Intn(3)]
+		if kind == "v1" { // v1 refuses ticker periods below 10 ms
+			tUnits *= 10
+		}
 		inacc := []int{25, 50, 10}[rnd.Intn(3)]
 		js := 3 + rnd.Intn(30)
 		capIn := []int{64, 1024, 8192}[rnd.Intn(3)]
